@@ -33,6 +33,11 @@ func findMatches(insts []bytecode.SearchInstruction, all bool, skip int, take in
 		return Matches{}
 	}
 
+	// an empty body can only match the empty string, which is never reported
+	if len(insts) == 0 {
+		return Matches{}
+	}
+
 	for all || matchNumber < skip+take {
 		currentState := CreateState(filename, reader, fileOffset, lineNumber, columnNumber)
 		for currentState.status == INPROCESS {
